@@ -417,6 +417,7 @@ theorem stepOp_roots (D : Nat) (s : Heap × VM) (op : ROp)
       simp only [Option.map_eq_some_iff] at hs
       obtain ⟨sc, _, rfl⟩ := hs
       exact Perm.refl _
+  | setInterval n => exact Perm.refl _
 
 theorem absRoots_perm {m m' : List RVal} (p : m.Perm m') (op : ROp) : (absRoots m op).Perm (absRoots m' op) := by
   cases op <;> simp only [absRoots] <;> first | exact p | skip
@@ -492,6 +493,7 @@ theorem stepOp_cap (D : Nat) (s : Heap × VM) (op : ROp) (hinv : s.2.roots.lengt
       simp only [Option.map_eq_some_iff] at hs
       obtain ⟨sc, _, rfl⟩ := hs
       exact hinv
+  | setInterval n => exact hinv
 
 theorem runOps_cap (D : Nat) (ops : List ROp) :
     ∀ (s : Heap × VM), s.2.roots.length ≤ s.2.rootCap → (runOps D s ops).2.roots.length ≤ (runOps D s ops).2.rootCap := by
@@ -551,6 +553,7 @@ theorem stepOp_suspended (D : Nat) (s : Heap × VM) (op : ROp) (hs : 0 < s.2.gcS
       simp only [Option.map_eq_some_iff] at hsf
       obtain ⟨sc, _, rfl⟩ := hsf
       exact ⟨hs, rfl, fun _ _ h => h⟩
+  | setInterval n => exact ⟨hs, rfl, fun _ _ h => h⟩
 
 theorem keepsSuspended_cons (op : ROp) (r : List ROp) (h : keepsSuspended (op :: r) = true) :
     keepsSuspended [op] = true ∧ keepsSuspended r = true := by
